@@ -31,7 +31,11 @@ namespace Clipper2Lib {
       }
       if (std::abs(io_count) > 1) break;
     }
-    return io_count <= 0;
+    if (io_count != 0) return io_count < 0;
+    // every vertex of path2 lies on path1 (or the counts balance), so
+    // path2's location is still equivocal: check its midpoint
+    const Point64 mp = GetBounds(path2).MidPoint();
+    return PointInPolygon(mp, path1) != PointInPolygonResult::IsOutside;
   }
 
   inline bool GetLocation(const Rect64& rec,
